@@ -201,8 +201,7 @@ func (g mapGenerator) EmitNodeMethodLookupByNode(w io.Writer) {
 		func (n {{ .Type | TypeSymbol }}) LookupByNode(k datamodel.Node) (datamodel.Node, error) {
 			k2, ok := k.({{ .Type.KeyType | TypeSymbol }})
 			if !ok {
-				panic("todo invalid key type error")
-				// 'schema.ErrInvalidKey{TypeName:"{{ .PkgName }}.{{ .Type.Name }}", Key:&_String{k}}' doesn't quite cut it: need room to explain the type, and it's not guaranteed k can be turned into a string at all
+				return nil, schema.ErrInvalidKey{TypeName:"{{ .PkgName }}.{{ .Type.Name }}", Key: k, Reason: schema.ErrUnmatchable{TypeName:"{{ .PkgName }}.{{ .Type.KeyType.Name }}"}.Reasonf("LookupByNode needs a key node of the map's own key type, got %T", k)}
 			}
 			v, exists := n.m[*k2]
 			if !exists {
